@@ -1416,6 +1416,11 @@ def run(R: Run):
             if res and isinstance(region, BoundingBox) and tag != "N" and g.crs is not None:
                 EXT.enclosing_world_oracle(R, _H, g, region, res[0], Fr(0), nm.split("|")[0])
             if res and tag != "N" and g.crs is not None:
+                ok_x, what_x = EXT.enclosing_excess_oracle(_H, g, verts, res[0], Fr(0))
+                R.oracle(ok_x, "enclosing-world-excess", {"op": "encl", "g": gb_dict(g), "kind": kind,
+                                                          "pts": [[float(x), float(y)] for x, y in verts], "crs": str(rc)},
+                         what_x, sig="encl-world-excess|" + ("axis" if EXT.axis_aligned(g) else "rot"))
+            if res and tag != "N" and g.crs is not None:
                 # theorem enclosing_then_ops_succeed: the result is on the source grid, so every set operation with
                 # the source works, and & is exactly the shared pixels
                 ok_, what_ = EXT.enclosing_followup(_H, g, res[0], Fr(0))
@@ -1554,6 +1559,9 @@ def run(R: Run):
 
     EXT.run_ext(R, sys.modules[__name__], bases, stats)
     EXT.run_ext3(R, sys.modules[__name__], bases, stats)
+    EXT.run_ext4(R, sys.modules[__name__], stats)
+    EXT.run_ext5(R, sys.modules[__name__], stats)
+    EXT.run_ext6(R, sys.modules[__name__], bases, stats)
 
     # ---------------------------------------------------------------- I. float stream (oracle only)
     float_stream(R, oracle, stats)
@@ -2056,6 +2064,10 @@ def eval_case(key, case, verbose=False):
             import sys
 
             return EXT.enclosing_followup(sys.modules[__name__], g, r, sl)
+        if key == "enclosing-world-excess":
+            import sys
+
+            return EXT.enclosing_excess_oracle(sys.modules[__name__], g, [tuple(p) for p in case["pts"]], r, sl)
         return chk_enclosing(g, [tuple(p) for p in case["pts"]], r, sl)
     if case.get("op") == "snap":
         a, b = gb_from(case["a"]), gb_from(case["b"])
